@@ -1727,6 +1727,7 @@ func (s *Server) clearExpiredRetainedMessages(now int64) {
 		if expired || enforced {
 			s.Topics.Retained.Delete(filter)
 			s.hooks.OnRetainedExpired(filter)
+			atomic.StoreInt64(&s.Info.Retained, int64(s.Topics.Retained.Len()))
 		}
 	}
 }
